@@ -1293,6 +1293,7 @@ func TestC15(t *testing.T) {
 	defer r.Close()
 	if rl := ReplayLines(); rl != nil {
 		var tr *c15Trace
+		halted := false // the trace's chain halted: skip to the next trace
 		for _, l := range rl {
 			fl := strings.Fields(l)
 			if fl[0] == "reset" {
@@ -1301,6 +1302,10 @@ func TestC15(t *testing.T) {
 				}
 				mi, _ := strconv.ParseUint(fl[2], 10, 64)
 				tr = c15Start(r, mi)
+				halted = false
+				continue
+			}
+			if halted {
 				continue
 			}
 			if tr == nil {
@@ -1309,7 +1314,7 @@ func TestC15(t *testing.T) {
 			// absolute times in a replay file are relative to the recorded reset time; the fixture is
 			// deterministic, so they coincide
 			if !tr.exec(l) {
-				break
+				halted = true
 			}
 		}
 		if tr != nil {
